@@ -182,6 +182,10 @@ def run_gjk_nesterov_accelerated(
             momentum = (i + 1) / (i + 3)
             y = momentum * ray + (1.0 - momentum) * support_point
             ray_dir = momentum * ray_dir + (1.0 - momentum) * y
+            if not ray_dir.any():
+                # the accelerated direction cancelled exactly: fall back
+                # to the direction of plain GJK
+                ray_dir = ray
         else:
             ray_dir = ray
 
